@@ -314,6 +314,7 @@ type sandbox struct {
 	base, root string
 	files      map[string]string // path relative to root (with leading /) -> content
 	srv        *sconn.Server
+	vhost      *sconn.Server
 }
 
 const canary = "CANARY-OUTSIDE-THE-ROOT"
@@ -341,14 +342,92 @@ func newSandbox(t testing.TB) *sandbox {
 		sb.files[n] = c
 		must(os.WriteFile(filepath.Join(sb.root, filepath.FromSlash(n)), []byte(c), 0o644))
 	}
+	// what a directory listing or an index page of the directory above the root would expose
+	must(os.WriteFile(filepath.Join(base, "index.html"), []byte(canary+":index"), 0o644))
+	must(os.WriteFile(filepath.Join(base, canary+"-NAME.txt"), []byte("x"), 0o644))
 	sb.srv = sconn.NewServer(func(h *server.Hertz) {
 		h.StaticFS("/", &app.FS{Root: sb.root})
+	})
+	// virtual hosts: the Host header (attacker controlled) becomes the first path segment
+	sb.vhost = sconn.NewServer(func(h *server.Hertz) {
+		h.StaticFS("/", &app.FS{Root: sb.root, PathRewrite: app.NewVHostPathRewriter(0), IndexNames: []string{"index.html"}, GenerateIndexPages: true})
 	})
 	return sb
 }
 
+// checkVHost: whatever Host and target say, nothing from outside the root is served.
+func (sb *sandbox) checkVHost(host, target string) (status int, msg string) {
+	reqBytes := []byte("GET " + target + " HTTP/1.1\r\nHost: " + host + "\r\nConnection: close\r\n\r\n")
+	res := sb.vhost.Serve(sconn.New([][]byte{reqBytes}, sconn.EOF))
+	if res.Panic != nil {
+		return 0, fmt.Sprintf("panic: %v", res.Panic)
+	}
+	if bytes.Contains(res.Output, []byte(canary)) {
+		return 0, fmt.Sprintf("response exposes content or names from outside the root: %.300q", res.Output)
+	}
+	resp, err := http.ReadResponse(bufio.NewReader(bytes.NewReader(res.Output)), &http.Request{Method: "GET"})
+	if err != nil {
+		return 0, fmt.Sprintf("unreadable response %q: %v", res.Output, err)
+	}
+	return resp.StatusCode, ""
+}
+
+func TestC07VHost(t *testing.T) {
+	rec := ev.New("fs-vhost")
+	sb := newSandbox(t)
+	defer sb.close()
+	shard, nshards := ev.Shard()
+	hosts := []string{"h", "a", ".a", "..", ".", "...", "%2e%2e", "..%2f..", "a/..", "..\\", "a:80", "..:80", "A", "[::1]", "..a", "a.."}
+	var global, evals, nontriv int64
+	statuses := map[int]int64{}
+	fails := 0
+	var targets []string
+	for _, a := range tokens {
+		targets = append(targets, "/"+a)
+		for _, b := range tokens {
+			targets = append(targets, "/"+a+b, "/"+a+"/"+b)
+		}
+	}
+	targets = append(targets, "/", "/x/..", "/a/../..", "/%2e%2e", "/%2e%2e/", "/a/%2e%2e/%2e%2e/")
+	for _, host := range hosts {
+		for _, target := range targets {
+			global++
+			if global%int64(nshards) != int64(shard) || !requestable(target) {
+				continue
+			}
+			evals++
+			nt := strings.Contains(host, "..") || strings.Contains(target, "..") || strings.Contains(strings.ToLower(target), "%2e")
+			if nt {
+				nontriv++
+			}
+			st, msg := sb.checkVHost(host, target)
+			statuses[st]++
+			if msg != "" {
+				fails++
+				ev.Fail(prop, "fs-vhost", map[string]string{"host": host, "target": target}, msg)
+				t.Errorf("Host %q, target %q: %s", host, target, msg)
+				if fails >= 5 {
+					rec.Exact(evals, nontriv)
+					return
+				}
+			}
+			if nt && st == 200 && rec.WantSample() {
+				rec.Sample(map[string]interface{}{"host": host, "target": target, "status": st})
+			}
+		}
+	}
+	rec.Exact(evals, nontriv)
+	for st, n := range statuses {
+		rec.Class(fmt.Sprintf("status-%d", st), n)
+	}
+	rec.Exhaustive("16 Host values (dot segments, encoded dots, ports, backslash) x all targets of one or two tokens, virtual-host path rewriter in front of the real FS handler with index pages and listings on")
+}
+
 func (sb *sandbox) close() {
 	sb.srv.Close()
+	if sb.vhost != nil {
+		sb.vhost.Close()
+	}
 	os.RemoveAll(sb.base)
 }
 
